@@ -139,6 +139,9 @@ var GsubSimple = []Simple{
 	{"GSUB3 A->[YXY] B->[A] (alternates not in glyph order, one repeated)", 3, func() []gtab.Subtable {
 		return []gtab.Subtable{&gtab.Gsub3_1{Cov: cov(GA, GB), Alternates: [][]glyph.ID{{GY, GX, GY}, {GA}}}}
 	}},
+	{"GSUB4 AA->B B->C C->L (one-glyph ligatures behind a real one: not a range)", 4, func() []gtab.Subtable {
+		return []gtab.Subtable{&gtab.Gsub4_1{Cov: cov(GA, GB, GC), Repl: [][]gtab.Ligature{{{In: []glyph.ID{GA}, Out: GB}}, {{In: nil, Out: GC}}, {{In: nil, Out: GL}}}}}
+	}},
 	{"GSUB1.1 A-C -> B-L (three consecutive glyphs: written as a range)", 1, func() []gtab.Subtable {
 		return []gtab.Subtable{&gtab.Gsub1_1{Cov: coverage.Set{GA: true, GB: true, GC: true}, Delta: 1}}
 	}},
